@@ -43,7 +43,7 @@ def line451 (serverName : Str) (cn : Conn) : Str :=
   [':'] ++ serverName ++ [' '] ++ ErrNotRegistered451 cn.clientName
 
 example : line451 (str "irc.irc") (Conn.new 3 (str "1.2.3.4")) =
-    str ":irc.irc 451 1.2.3.4 :You have not registered" := by decide
+    (str ":irc.irc " ++ Reply.ErrNotRegistered451 (client := str "1.2.3.4")) := by decide
 
 /-- A well-formed command outside the pre-registration list, on an unauthenticated connection:
     exactly one line (451) to the sender, nothing to anybody else, and the world is unchanged
@@ -504,7 +504,7 @@ example : allowedUnregistered (.JOIN [str "#x"] none) = false := by decide
 example : (({ w := runOn cfgA ip10 [str "NICK b"] } : Ctx).conn 0).authenticated = false := by
   decide
 example : (step cfgA (runOn cfgA ip10 [str "NICK b"]) (.line 0 (str "JOIN #x"))).outs =
-    [(0, str ":irc.irc 451 b :You have not registered")] := by decide
+    [(0, (str ":irc.irc " ++ Reply.ErrNotRegistered451 (client := str "b")))] := by decide
 example : summary (step cfgA (runOn cfgA ip10 [str "NICK b"]) (.line 0 (str "JOIN #x"))).w =
     ([], some (false, false)) := by decide
 
@@ -513,7 +513,7 @@ example : summary (runOn cfgA ip10 [str "NICK a", str "USER a 0 * :A"]) = ([], n
 example : summary (runOn cfgA ip10 [str "PASS wrong", str "NICK a", str "USER a 0 * :A"]) =
     ([], none) := by decide
 example : (step cfgA (runOn cfgA ip10 [str "NICK b"]) (.line 0 (str "USER bob 0 * :A"))).outs =
-    [(0, str ":irc.irc 464 b :Password incorrect")] := by decide
+    [(0, (str ":irc.irc " ++ Reply.ErrPasswdMismatch464 (client := str "b")))] := by decide
 -- right password, in any order, other commands in between are refused
 example : summary (runOn cfgA ip10 [str "PASS secret", str "NICK a", str "USER a 0 * :A"]) =
     ([str "a"], some (true, false)) := by decide
